@@ -18,6 +18,7 @@ import (
 	"github.com/brutella/hc"
 	"github.com/brutella/hc/accessory"
 	"github.com/brutella/hc/db"
+	"github.com/brutella/hc/hap/pair"
 	hclog "github.com/brutella/hc/log"
 	"github.com/brutella/hc/util"
 )
@@ -78,6 +79,28 @@ func main() {
 		}
 		mark("BEGIN")
 		err = database.SaveEntity(db.NewEntity(os.Args[3], pub, nil))
+		mark("END")
+		if err != nil {
+			os.Exit(4)
+		}
+	case "add-pairing":
+		// an administrator's add-pairing request as the /pairings endpoint hands it to the pairing controller
+		n, _ := strconv.Atoi(os.Args[4])
+		pub := make([]byte, n)
+		for i := range pub {
+			pub[i] = byte(i*5 + n)
+		}
+		database, err := db.NewDatabase(dir)
+		if err != nil {
+			os.Exit(3)
+		}
+		req := util.NewTLV8Container()
+		req.SetByte(pair.TagPairingMethod, byte(pair.PairingMethodAdd))
+		req.SetString(pair.TagUsername, os.Args[3])
+		req.SetBytes(pair.TagPublicKey, pub)
+		req.SetByte(pair.TagPermission, 1)
+		mark("BEGIN")
+		_, err = pair.NewPairingController(database).Handle(req)
 		mark("END")
 		if err != nil {
 			os.Exit(4)
